@@ -83,7 +83,7 @@ def correspondence(rep, rng, tier):
     seen = table_oracle(rep)
     names = [n for n in D.supported_names() if n.endswith('_nocancel') or (n + '_nocancel') in seen]
     D.section_decoders(rep, rng, tier, names=names, name='decoders-twins', per=6 if tier == 'quick' else 80)
-    twin_oracle(rep, rng, tier, set(D.supported_names()))
+    twin_oracle(rep, rng, tier, set(D.all_handler_names()))      # every registered twin, translated or not
     st = D.stats()
     if st['total'] != len(seen):
         rep.broken.append('reflection: Gen.Decoders lists %d handlers, the real tables %d' % (st['total'], len(seen)))
